@@ -74,6 +74,30 @@ func newExpoHistogramDataPoint[N int64 | float64](
 
 // record adds a new measurement to the histogram. It will rescale the buckets if needed.
 func (p *expoHistogramDataPoint[N]) record(v N) {
+	absV := math.Abs(float64(v))
+	isZero := float64(absV) == 0.0
+
+	var bin, scaleDelta int32
+	bucket := &p.posBuckets
+	if !isZero {
+		bin = p.getBin(absV)
+
+		if v < 0 {
+			bucket = &p.negBuckets
+		}
+
+		// If the new bin would make the counts larger than maxScale, we need to
+		// downscale current measurements.
+		scaleDelta = p.scaleChange(bin, bucket.startBin, len(bucket.counts))
+		if scaleDelta > 0 && p.scale-scaleDelta < expoMinScale {
+			// With a scale of -10 there is only two buckets for the whole range of float64 values.
+			// This can only happen if there is a max size of 1.
+			// The measurement is dropped: do not count it.
+			otel.Handle(errors.New("exponential histogram scale underflow"))
+			return
+		}
+	}
+
 	p.count++
 
 	if !p.noMinMax {
@@ -88,29 +112,12 @@ func (p *expoHistogramDataPoint[N]) record(v N) {
 		p.sum += v
 	}
 
-	absV := math.Abs(float64(v))
-
-	if float64(absV) == 0.0 {
+	if isZero {
 		p.zeroCount++
 		return
 	}
 
-	bin := p.getBin(absV)
-
-	bucket := &p.posBuckets
-	if v < 0 {
-		bucket = &p.negBuckets
-	}
-
-	// If the new bin would make the counts larger than maxScale, we need to
-	// downscale current measurements.
-	if scaleDelta := p.scaleChange(bin, bucket.startBin, len(bucket.counts)); scaleDelta > 0 {
-		if p.scale-scaleDelta < expoMinScale {
-			// With a scale of -10 there is only two buckets for the whole range of float64 values.
-			// This can only happen if there is a max size of 1.
-			otel.Handle(errors.New("exponential histogram scale underflow"))
-			return
-		}
+	if scaleDelta > 0 {
 		// Downscale
 		p.scale -= scaleDelta
 		p.posBuckets.downscale(scaleDelta)
